@@ -29,16 +29,27 @@ type cancelMon struct {
 	gate    chan struct{}
 	mu      sync.Mutex
 	postOps map[string]int
+	trace   []string // first post-return operations: goroutine, frame, frame run id, interpreter run id
 	ticks   map[string]int
 	preTick atomic.Int64
 	frozen  atomic.Int64
 	interp  *interp.Interpreter
+	// start window: goroutines started by a go statement on a function value are held between the
+	// run-id check of the go statement and the call of the function
+	holdStarts atomic.Bool
+	startGate  chan struct{}
+	startsHeld atomic.Int64
+	// goroutines which began (go statement on a function value) and neither executed an operation nor
+	// returned yet: workload shaping waits for this set to drain before cancelling, except in
+	// start-window mode
+	nStarting atomic.Int64
+	starting  map[string]bool
 	first   atomic.Uintptr // frame of the first operation observed (the global frame)
 	atK     atomic.Uintptr // frame of operation k
 }
 
 func newCancelMon(k int64) *cancelMon {
-	return &cancelMon{k: k, reached: make(chan struct{}), gate: make(chan struct{}), postOps: map[string]int{}, ticks: map[string]int{}}
+	return &cancelMon{k: k, reached: make(chan struct{}), gate: make(chan struct{}), startGate: make(chan struct{}), starting: map[string]bool{}, postOps: map[string]int{}, ticks: map[string]int{}}
 }
 
 func goid() string {
@@ -55,6 +66,7 @@ func (m *cancelMon) step(ev interp.VerifStep) {
 	if ev.Interp != m.interp {
 		return // an operation of some other interpreter of this process
 	}
+	m.started()
 	c := m.count.Add(1)
 	if c == 1 {
 		m.first.Store(ev.Frame)
@@ -72,8 +84,44 @@ func (m *cancelMon) step(ev interp.VerifStep) {
 		g := goid()
 		m.mu.Lock()
 		m.postOps[g]++
+		if len(m.trace) < 16 {
+			m.trace = append(m.trace, fmt.Sprintf("g%s frame=%x frameid=%d op#%d", g, ev.Frame, ev.RunID, c))
+		}
 		m.mu.Unlock()
 	}
+}
+
+func (m *cancelMon) goStart(i *interp.Interpreter, stage int) {
+	if i != m.interp {
+		return
+	}
+	switch stage {
+	case 0:
+		g := goid()
+		m.mu.Lock()
+		m.starting[g] = true
+		m.nStarting.Store(int64(len(m.starting)))
+		m.mu.Unlock()
+	case 1:
+		if m.holdStarts.Load() {
+			m.startsHeld.Add(1)
+			<-m.startGate
+		}
+	case 2:
+		m.started()
+	}
+}
+
+// started: the goroutine executes its first operation, or has returned
+func (m *cancelMon) started() {
+	if m.nStarting.Load() == 0 {
+		return
+	}
+	g := goid()
+	m.mu.Lock()
+	delete(m.starting, g)
+	m.nStarting.Store(int64(len(m.starting)))
+	m.mu.Unlock()
 }
 
 func (m *cancelMon) tick() {
@@ -206,12 +254,15 @@ type cancelRun struct {
 	MaxPostOps   int
 	MaxPostTicks int
 	PostGor      int
+	PostTrace    []string `json:",omitempty"`
 	Leaked       []string
 	Dump         string
 	Frozen       int64
 	Ops          int64
 	Finished     bool // the evaluation finished before operation k
 	TopLevel     bool // operation k ran in the global frame (package-level code, before main's frame exists)
+	StartsHeld   int64 `json:",omitempty"` // goroutines held in the start window when the context was cancelled
+	Stalled      bool  `json:",omitempty"` // cancelled because everything was parked behind a held goroutine start, before operation k
 }
 
 type cancelSetup struct {
@@ -220,6 +271,9 @@ type cancelSetup struct {
 	prepC []string          // earlier EvalWithContext chunks
 	src   string
 	entry string // eval | execute | evalpath
+	// startWindow holds every goroutine started by a go statement on a function value just before it
+	// calls the function, cancels, lets the evaluation end, and only then releases those goroutines.
+	startWindow bool
 }
 
 func newCancelInterp(m *cancelMon, files map[string]string, out *bytes.Buffer) *interp.Interpreter {
@@ -284,9 +338,40 @@ func runCancelAt(s *cancelSetup, k int64) (res cancelRun, setupErr error) {
 		}
 		ret <- err
 	}()
+	m.holdStarts.Store(s.startWindow)
+	interp.VerifSetGoStart(m.goStart)
+	defer interp.VerifSetGoStart(nil)
+	stall := make(chan struct{})
+	stopStall := make(chan struct{})
+	defer close(stopStall)
+	if s.startWindow {
+		// workload shaping: with a goroutine start held, the program may park before operation k
+		go func() {
+			ok := 0
+			for {
+				select {
+				case <-stopStall:
+					return
+				case <-time.After(300 * time.Microsecond):
+				}
+				st, _ := interpGoroutines()
+				if m.startsHeld.Load() > 0 && len(st) > 0 && parked(st) {
+					if ok++; ok >= 3 {
+						close(stall)
+						return
+					}
+				} else {
+					ok = 0
+				}
+			}
+		}()
+	}
 	select {
 	case <-m.reached:
 		res.Reached = true
+	case <-stall:
+		res.Reached = true
+		res.Stalled = true
 	case err := <-ret:
 		res.Finished = true
 		if err != nil {
@@ -294,14 +379,25 @@ func runCancelAt(s *cancelSetup, k int64) (res cancelRun, setupErr error) {
 		}
 		m.post.Store(true)
 		close(m.gate)
+		close(m.startGate)
 		return res, nil
 	case <-time.After(30 * time.Second):
 		close(m.gate)
+		close(m.startGate)
 		return res, fmt.Errorf("operation %d never reached and evaluation did not finish", k)
 	}
 	settle(2 * time.Second)
+	if !s.startWindow {
+		// workload shaping: a goroutine between its go statement and its first operation is the subject
+		// of the start-window cells only
+		for dl := time.Now().Add(2 * time.Second); m.nStarting.Load() > 0 && time.Now().Before(dl); {
+			time.Sleep(200 * time.Microsecond)
+		}
+		settle(2 * time.Second)
+	}
 	res.Frozen = m.frozen.Load()
 	res.TopLevel = m.atK.Load() == m.first.Load()
+	res.StartsHeld = m.startsHeld.Load()
 	cancel()
 	select {
 	case err := <-ret:
@@ -314,6 +410,13 @@ func runCancelAt(s *cancelSetup, k int64) (res cancelRun, setupErr error) {
 	}
 	m.post.Store(true)
 	close(m.gate)
+	if s.startWindow {
+		// the goroutines of the cancelled evaluation end first; the held starts are released into an
+		// idle interpreter
+		waitQuiet(3 * time.Second)
+		m.holdStarts.Store(false)
+	}
+	close(m.startGate)
 	res.Leaked, res.Dump = waitQuiet(3 * time.Second)
 	res.Ops = m.count.Load()
 	m.mu.Lock()
@@ -328,6 +431,9 @@ func runCancelAt(s *cancelSetup, k int64) (res cancelRun, setupErr error) {
 		}
 	}
 	res.PostGor = len(m.postOps)
+	if res.MaxPostOps > 1 || res.MaxPostTicks > 1 {
+		res.PostTrace = append([]string(nil), m.trace...)
+	}
 	m.mu.Unlock()
 	return res, nil
 }
